@@ -53,7 +53,7 @@ theorem ended_callStart {mi : Nat} {s : Fw σ} {t : Int} (h : Ended mi s) : Ende
 theorem walkQuiet (mi : Nat) : Walk ρ (fun (s t : Fw σ) => Quiet mi s → Quiet mi t) where
   refl _ h := h
   trans h₁ h₂ h := h₂ (h₁ h)
-  transition j ev s hq := by
+  transition j ev s _ hq := by
     by_cases hj : j = mi
     · subst hj
       obtain ⟨h1, h2⟩ := transition_ended ρ FUEL j ev s hq.1
